@@ -52,7 +52,14 @@ impl util::SymbolManager<asm::Symbol>
                     {
                         if let Some(addr_start) = bankdef.addr_start.maybe_into::<usize>()
                         {
-                            let prg_offset = addr - addr_start + output_offset / 8 - 0x10;
+                            // Labels located before the PRG area (inside the
+                            // 16-byte iNES header) have no PRG offset
+                            let Some(prg_offset) = addr
+                                .checked_sub(addr_start)
+                                .and_then(|offset| offset.checked_add(output_offset / 8))
+                                .and_then(|offset| offset.checked_sub(0x10))
+                                else { return };
+
                             result.push_str("P:");
                             result.push_str(&format!("{:x}", prg_offset));
                             result.push_str(":");
